@@ -2,12 +2,18 @@ T = "GeomV.C18."
 CFG = {
     "id": "C18",
     "lean_modules": ["GeomV.C18.Proofs"],
+    "lean_dirs": ["C18"],
     "exe": "geomv_c18",
     "go_cmd": "c18",
     "stages": ["go:gen", "go:impl", "lean:judge"],
     "theorems": [T + n for n in [
-        "closure_least",
-        "closure_closed",
+        "closure_least", "closure_closed",
+        "C18_sound", "C18_sound_run",
+        "C18_complete", "C18_complete_static", "C18_terminates",
+        "C18_schedule_independent",
+        "C18_check",
+        "C18_filter",
+        "C18_original_condition_incomplete_seq", "C18_original_condition_incomplete_par",
     ]],
     "trusted_base": [
         "Lean 4.33.0 kernel; axioms of every theorem printed by #print axioms must be within {propext, Classical.choice, Quot.sound}",
